@@ -509,7 +509,14 @@ func (r *enRun) dialed(i int, c net.Conn) net.Conn {
 	if banned {
 		r.class("reconnect-while-banned")
 	}
-	return &enSpy{Conn: c, r: r, i: i, bannedAtDial: banned, dialAt: now}
+	// "Certainly banned" for the no-handshake rule: the ban must have been
+	// placed strictly before this virtual instant. A dial that completes in
+	// the very instant the ban is placed (a second connection racing the
+	// first one's version message) is not ordered with respect to it.
+	r.mu.Lock()
+	certain := banned && r.bans[i] != nil && r.bans[i].hi.Before(now)
+	r.mu.Unlock()
+	return &enSpy{Conn: c, r: r, i: i, bannedAtDial: certain, dialAt: now}
 }
 
 // ---------------------------------------------------------------- the oracle
